@@ -18,7 +18,7 @@ ASSUMPTIONS = [
     "1e-4 relative (+1e-6*|mean| absolute for std, since the library accumulates in float32)",
     "warm-up schedule checked for epoch callbacks in order (0,1,2,...) incl. repeated callbacks and epochs beyond n_epochs",
 ]
-REQUIRED_COUNTERS = ["scaler_calls", "scaler_outputs_checked", "ema_calls", "warmup_calls", "warmup_epoch_callbacks"]
+REQUIRED_COUNTERS = ["scaler_calls", "scaler_outputs_checked", "ema_calls", "warmup_calls", "warmup_epoch_callbacks", "ema_exact_zero_followups"]
 MIN_NONTRIVIAL = {"quick": 100, "thorough": 1000}
 WORKERS = {"quick": 8, "thorough": 16}
 BUDGET_S = {"quick": 300, "thorough": 1500}
@@ -39,6 +39,9 @@ def cases(tier, seed):
     for i in range(n):
         out.append(dict(kind="ema", beta=rnd.choice([0.0, 0.5, 0.8, 0.9, 0.99, 1.0]), via=rnd.choice(["cls", "registry", "mean"]),
                         mag=rnd.choice([1e-2, 1.0, 100.0]), steps=rnd.choice([3, 10, 50]), s=rnd.randrange(10**6)))
+    for i in range(max(6, n // 4)):
+        out.append(dict(kind="ema", beta=rnd.choice([0.5, 0.8, 0.9]) if i % 3 else 0.5, via=rnd.choice(["cls", "registry"]), zero=["mid", "first_zeros", "first_cancel"][i % 3],
+                        mag=rnd.choice([1.0, 100.0]), steps=rnd.choice([4, 10]), s=rnd.randrange(10**6)))
     for i in range(n):
         out.append(dict(kind="warmup", n_epochs=rnd.choice([1, 2, 3, 5, 8]), beta=rnd.choice([0.5, 0.8, 0.95]),
                         epochs=rnd.choice([2, 4, 9, 12]), per_epoch=rnd.choice([1, 3, 6]), repeat_cb=rnd.random() < 0.3,
@@ -163,6 +166,17 @@ def run_case(ctx, case):
         sizes = set()
         for t in range(case["steps"]):
             r = draw(case["mag"], -5.0 * case["mag"]).reshape(-1)
+            # histories whose running average is EXACTLY zero at some point (an all-zero or cancelling first batch; with
+            # beta = 0.5 the means 1, -1): zero is a value of the average like any other
+            z = case.get("zero")
+            if z == "first_zeros" and t == 0:
+                r = torch.zeros_like(r)
+            elif z == "first_cancel" and t == 0:
+                r = torch.tensor([-2.0, 2.0] * max(1, r.numel() // 2))
+            elif z == "mid" and t in (0, 1) and beta == 0.5:
+                r = torch.full_like(r, 1.0 if t == 0 else -1.0)
+            if z and t <= 1:
+                ctx.count("ema_exact_zero_histories" if t == 0 else "ema_exact_zero_followups")
             r.requires_grad_(t % 2 == 1)
             sizes.add(r.numel())
             val, loss = bl.eval(None, r)
